@@ -4,13 +4,19 @@ import Mathlib.Data.List.Basic
 import Mathlib.Tactic.Ring
 import Mathlib.Tactic.Linarith
 import Mathlib.Tactic.Positivity
+import Mathlib.Algebra.Order.Monoid.Defs
+import Mathlib.Algebra.Order.Monoid.Unbundled.Basic
+import Mathlib.Order.Basic
+import Mathlib.Analysis.Complex.Norm
+import Mathlib.Analysis.SpecialFunctions.Pow.Real
 
 /-! # C11 — path finding returns valid chains; flipping a plaquette path changes exactly its two ends; metrics
 
 The backward pass is proved correct for every parent table that satisfies `ParentOK` (parents are adjacent through
 the recorded edge and strictly decrease a rank), and the forward pass is proved to establish `ParentOK` whenever it
 returns (`forward_done`; loop invariant `FInv`, rank = number of recorded costs below the node's own), for every
-cost type obeying `CostLaws` — so `path_valid` is unconditional.  The executable model of the whole search is run
+cost type obeying `CostLaws` — so `path_valid` is unconditional.  `path_shortest` (last section): without early stopping the
+returned chain is no longer than any walk from the start to the goal, for every graph, budget and metric obeying `Heur`.  The executable model of the whole search is run
 against koala with IEEE doubles and must return the same path. -/
 
 namespace C11
@@ -753,5 +759,679 @@ example : validChainB exAdj [2, 0] [2] = true := by decide
 /-- the cost laws are satisfiable: unit costs in `Nat` -/
 example : CostLaws (fun _ _ => (1 : Nat)) := ⟨fun _ _ h => Nat.lt_asymm h, fun _ _ _ => Nat.lt_trans, fun c _ _ => Nat.lt_succ_self c⟩
 example : wrap1 10 1 9 = 2 ∧ periodic2 10 (1, 1) (9, 2) = 5 := by decide
+
+end C11
+
+namespace C11
+open Path
+
+/-! ### optimality: without early stopping the path returned is a shortest one -/
+
+section Optimal
+variable {C : Type} [AddCommMonoid C] [LinearOrder C] [IsOrderedAddMonoid C]
+
+/-- length of a walk `[p0, p1, …, pk]` in the metric `h` (the edge cost of the search is `h current next`) -/
+def weight (h : Nat → Nat → C) : List Nat → C
+  | a :: b :: rest => h a b + weight h (b :: rest)
+  | _ => 0
+
+/-- the same for the list the backward pass returns, which runs from the goal back to the start -/
+def wRev (h : Nat → Nat → C) : List Nat → C
+  | n :: p :: rest => h p n + wRev h (p :: rest)
+  | _ => 0
+
+/-- consecutive nodes are adjacent -/
+def IsWalk (adj : Nat → List (Nat × Nat)) : List Nat → Prop
+  | a :: b :: rest => (∃ e, (b, e) ∈ adj a) ∧ IsWalk adj (b :: rest)
+  | _ => True
+
+/-- what the proof needs of the centre-to-centre metric: non-negative, zero from the goal to itself, triangle inequality
+    towards the goal (both offered metrics are metrics in exact arithmetic: `euclid2_metric`, `periodic2_*`) -/
+structure Heur (h : Nat → Nat → C) (goal : Nat) : Prop where
+  nonneg : ∀ a b, 0 ≤ h a b
+  goal_zero : h goal goal = 0
+  tri : ∀ a b, h a goal ≤ h a b + h b goal
+
+theorem admissible (adj : Nat → List (Nat × Nat)) (h : Nat → Nat → C) (goal : Nat) (hH : Heur h goal) :
+    ∀ (rest : List Nat) (a : Nat), (a :: rest).getLast? = some goal → h a goal ≤ weight h (a :: rest) := by
+  intro rest
+  induction rest with
+  | nil =>
+    intro a hl
+    simp only [List.getLast?_singleton, Option.some.injEq] at hl
+    subst hl
+    simp [weight, hH.goal_zero]
+  | cons b r ih =>
+    intro a hl
+    have hl' : (b :: r).getLast? = some goal := by simpa [List.getLast?_cons_cons] using hl
+    calc h a goal ≤ h a b + h b goal := hH.tri a b
+      _ ≤ h a b + weight h (b :: r) := add_le_add (le_refl _) (ih b hl')
+      _ = weight h (a :: b :: r) := rfl
+
+def OpenAt (h : Nat → Nat → C) (goal : Nat) (s : St C) (n : Nat) (c : C) : Prop :=
+  ∃ p, (p, n) ∈ s.frontier ∧ p ≤ c + h n goal
+
+def ClosedAt (adj : Nat → List (Nat × Nat)) (h : Nat → Nat → C) (s : St C) (n : Nat) (c : C) : Prop :=
+  ∀ m e, (m, e) ∈ adj n → ∃ cm, lookup m s.cost = some cm ∧ cm ≤ c + h n m
+
+/-- the loop invariant behind optimality; `P` lists the neighbours of the node being expanded that have been relaxed
+    already (`cur = none` between iterations) -/
+structure RInv (adj : Nat → List (Nat × Nat)) (h : Nat → Nat → C) (start goal : Nat) (cur : Option (Nat × C))
+    (P : Nat × Nat → Prop) (s : St C) : Prop where
+  nonneg : ∀ n c, lookup n s.cost = some c → 0 ≤ c
+  goal_entries : ∀ p, (p, goal) ∈ s.frontier → ∃ c, lookup goal s.cost = some c ∧ c ≤ p
+  frontier_cost : ∀ x ∈ s.frontier, ∃ c, lookup x.2 s.cost = some c
+  start_zero : lookup start s.cost = some 0
+  parent_cost : ∀ n p e, lookup n s.came = some (p, e) →
+    ∃ cp cn, lookup p s.cost = some cp ∧ lookup n s.cost = some cn ∧ cp + h p n ≤ cn
+  settled : ∀ n c, (∀ cc, cur ≠ some (n, cc)) → lookup n s.cost = some c → OpenAt h goal s n c ∨ ClosedAt adj h s n c
+  cur_cost : ∀ n cc, cur = some (n, cc) → lookup n s.cost = some cc
+  done : ∀ n cc, cur = some (n, cc) → ∀ x, P x → ∃ cm, lookup x.1 s.cost = some cm ∧ cm ≤ cc + h n x.1
+
+theorem rinv_init (adj : Nat → List (Nat × Nat)) (h : Nat → Nat → C) (start goal : Nat) (hH : Heur h goal) :
+    RInv adj h start goal none (fun _ => False) (initSt (0 : C) start) where
+  nonneg := by
+    intro n c hl
+    simp only [initSt, lookup] at hl
+    split at hl
+    · simp only [Option.some.injEq] at hl; rw [← hl]
+    · cases hl
+  goal_entries := by
+    intro p hp
+    simp only [initSt, List.mem_singleton, Prod.mk.injEq] at hp
+    obtain ⟨rfl, rfl⟩ := hp
+    exact ⟨0, by simp [initSt, lookup], le_refl _⟩
+  frontier_cost := by
+    intro x hx
+    simp only [initSt, List.mem_singleton] at hx
+    subst hx
+    exact ⟨0, by simp [initSt, lookup]⟩
+  start_zero := by simp [initSt, lookup]
+  parent_cost := by intro n p e hl; simp [initSt, lookup] at hl
+  settled := by
+    intro n c _ hl
+    simp only [initSt, lookup] at hl
+    split at hl
+    · rename_i hn
+      simp only [Option.some.injEq] at hl
+      subst hn; subst hl
+      left
+      exact ⟨0, by simp [initSt], by simpa using hH.nonneg start goal⟩
+    · cases hl
+  cur_cost := by intro n cc hc; cases hc
+  done := by intro n cc hc; cases hc
+
+theorem RInv.mono {adj : Nat → List (Nat × Nat)} {h : Nat → Nat → C} {start goal : Nat} {cur : Option (Nat × C)}
+    {P Q : Nat × Nat → Prop} {s : St C} (hI : RInv adj h start goal cur P s) (hQ : ∀ x, Q x → P x) :
+    RInv adj h start goal cur Q s :=
+  ⟨hI.nonneg, hI.goal_entries, hI.frontier_cost, hI.start_zero, hI.parent_cost, hI.settled, hI.cur_cost,
+    fun n cc hc x hx => hI.done n cc hc x (hQ x hx)⟩
+
+/-- one successful relaxation keeps the invariant -/
+theorem rinv_update (adj : Nat → List (Nat × Nat)) (h : Nat → Nat → C) (start goal : Nat) (hH : Heur h goal)
+    (cur : Nat) (cc : C) (P : Nat × Nat → Prop) (s : St C) (hI : RInv adj h start goal (some (cur, cc)) P s)
+    (next e : Nat)
+    (hbetter : lookup next s.cost = none ∨ ∃ old, lookup next s.cost = some old ∧ cc + h cur next < old) :
+    RInv adj h start goal (some (cur, cc)) (fun x => P x ∨ x = (next, e))
+      { came := Path.set next (cur, e) s.came, cost := Path.set next (cc + h cur next) s.cost,
+        frontier := (cc + h cur next + h next goal, next) :: s.frontier } := by
+  have hcc := hI.cur_cost cur cc rfl
+  have hcc0 : 0 ≤ cc := hI.nonneg cur cc hcc
+  have hnew0 : 0 ≤ cc + h cur next := add_nonneg hcc0 (hH.nonneg _ _)
+  -- an improvement is strictly below the old value
+  have hlt : ∀ old, lookup next s.cost = some old → cc + h cur next < old := by
+    intro old ho
+    rcases hbetter with hb | ⟨old', ho', hlt⟩
+    · rw [hb] at ho; cases ho
+    · rw [ho] at ho'; simp only [Option.some.injEq] at ho'; subst ho'; exact hlt
+  have hnc : next ≠ cur := by
+    intro hc
+    subst hc
+    have := hlt cc hcc
+    exact absurd (le_add_of_nonneg_right (hH.nonneg next next)) (not_le.mpr this)
+  have hns : next ≠ start := by
+    intro hc
+    subst hc
+    exact absurd hnew0 (not_le.mpr (hlt 0 hI.start_zero))
+  have hcost : ∀ n, n ≠ next → lookup n (Path.set next (cc + h cur next) s.cost) = lookup n s.cost :=
+    fun n hn => lookup_set_ne next n _ s.cost hn
+  have hcostn : lookup next (Path.set next (cc + h cur next) s.cost) = some (cc + h cur next) := lookup_set_self next _ s.cost
+  -- costs only go down
+  have hdown : ∀ m cm, lookup m s.cost = some cm → ∃ cm', lookup m (Path.set next (cc + h cur next) s.cost) = some cm' ∧ cm' ≤ cm := by
+    intro m cm hm
+    by_cases hmn : m = next
+    · subst hmn; exact ⟨_, hcostn, le_of_lt (hlt cm hm)⟩
+    · exact ⟨cm, by rw [hcost m hmn]; exact hm, le_refl _⟩
+  refine ⟨?_, ?_, ?_, ?_, ?_, ?_, ?_, ?_⟩
+  · intro n c hl
+    by_cases hn : n = next
+    · subst hn; rw [hcostn] at hl; simp only [Option.some.injEq] at hl; rw [← hl]; exact hnew0
+    · rw [hcost n hn] at hl; exact hI.nonneg n c hl
+  · intro p hp
+    rcases List.mem_cons.mp hp with hp | hp
+    · simp only [Prod.mk.injEq] at hp
+      obtain ⟨rfl, hg⟩ := hp
+      subst hg
+      exact ⟨_, hcostn, by rw [hH.goal_zero, add_zero]⟩
+    · obtain ⟨c, hc, hcp⟩ := hI.goal_entries p hp
+      obtain ⟨c', hc', hle⟩ := hdown goal c hc
+      exact ⟨c', hc', le_trans hle hcp⟩
+  · intro x hx
+    rcases List.mem_cons.mp hx with hx | hx
+    · subst hx; exact ⟨_, hcostn⟩
+    · obtain ⟨c, hc⟩ := hI.frontier_cost x hx
+      obtain ⟨c', hc', _⟩ := hdown x.2 c hc
+      exact ⟨c', hc'⟩
+  · show lookup start (Path.set next (cc + h cur next) s.cost) = some 0
+    rw [hcost start (Ne.symm hns)]; exact hI.start_zero
+  · intro n p e' hl
+    by_cases hn : n = next
+    · subst hn
+      rw [lookup_set_self] at hl
+      simp only [Option.some.injEq, Prod.mk.injEq] at hl
+      obtain ⟨rfl, rfl⟩ := hl
+      exact ⟨cc, _, by rw [hcost _ (Ne.symm hnc)]; exact hcc, hcostn, le_refl _⟩
+    · rw [lookup_set_ne next n _ s.came hn] at hl
+      obtain ⟨cp, cn, hp, hcn, hle⟩ := hI.parent_cost n p e' hl
+      obtain ⟨cp', hp', hle'⟩ := hdown p cp hp
+      exact ⟨cp', cn, hp', by rw [hcost n hn]; exact hcn, le_trans (add_le_add hle' (le_refl _)) hle⟩
+  · intro n c hncur hl
+    by_cases hn : n = next
+    · subst hn
+      rw [hcostn] at hl; simp only [Option.some.injEq] at hl; subst hl
+      left
+      exact ⟨_, List.mem_cons_self, le_refl _⟩
+    · rw [hcost n hn] at hl
+      rcases hI.settled n c hncur hl with ⟨p, hp, hle⟩ | hcl
+      · left; exact ⟨p, List.mem_cons_of_mem _ hp, hle⟩
+      · right
+        intro m e' hm
+        obtain ⟨cm, hcm, hle⟩ := hcl m e' hm
+        obtain ⟨cm', hcm', hle'⟩ := hdown m cm hcm
+        exact ⟨cm', hcm', le_trans hle' hle⟩
+  · intro n cc' hc
+    simp only [Option.some.injEq, Prod.mk.injEq] at hc
+    obtain ⟨rfl, rfl⟩ := hc
+    show lookup cur (Path.set next (cc + h cur next) s.cost) = some cc
+    rw [hcost cur (Ne.symm hnc)]; exact hcc
+  · intro n cc' hc x hx
+    simp only [Option.some.injEq, Prod.mk.injEq] at hc
+    obtain ⟨rfl, rfl⟩ := hc
+    rcases hx with hx | hx
+    · obtain ⟨cm, hcm, hle⟩ := hI.done cur cc rfl x hx
+      obtain ⟨cm', hcm', hle'⟩ := hdown x.1 cm hcm
+      exact ⟨cm', hcm', le_trans hle' hle⟩
+    · subst hx
+      exact ⟨_, hcostn, le_refl _⟩
+
+/-- the relaxation loop over the neighbours of `cur` keeps the invariant and records every neighbour it has handled -/
+theorem relax_rinv (adj : Nat → List (Nat × Nat)) (h : Nat → Nat → C) (start goal : Nat) (hH : Heur h goal) (cur : Nat) (cc : C) :
+    ∀ (todo : List (Nat × Nat)) (P : Nat × Nat → Prop) (s : St C), RInv adj h start goal (some (cur, cc)) P s →
+      RInv adj h start goal (some (cur, cc)) (fun x => P x ∨ x ∈ todo) (relax h goal false cur todo s).1 ∧
+      (relax h goal false cur todo s).2 = false := by
+  intro todo
+  induction todo with
+  | nil =>
+    intro P s hI
+    exact ⟨hI.mono (fun x hx => by rcases hx with hx | hx; exact hx; cases hx), rfl⟩
+  | cons ne rest ih =>
+    intro P s hI
+    obtain ⟨next, e⟩ := ne
+    have hcc := hI.cur_cost cur cc rfl
+    cases hn : lookup next s.cost with
+    | none =>
+      have hr : relax h goal false cur ((next, e) :: rest) s =
+          relax h goal false cur rest
+            { came := Path.set next (cur, e) s.came, cost := Path.set next (cc + h cur next) s.cost,
+              frontier := (cc + h cur next + h next goal, next) :: s.frontier } := by
+        simp only [relax, hcc, hn, Bool.false_and, Bool.false_eq_true, if_false, if_true]
+      rw [hr]
+      obtain ⟨h1, h2⟩ := ih _ _ (rinv_update adj h start goal hH cur cc P s hI next e (Or.inl hn))
+      refine ⟨h1.mono ?_, h2⟩
+      intro x hx
+      rcases hx with hx | hx
+      · exact Or.inl (Or.inl hx)
+      · rcases List.mem_cons.mp hx with hx | hx
+        · exact Or.inl (Or.inr hx)
+        · exact Or.inr hx
+    | some old =>
+      by_cases hb : cc + h cur next < old
+      · have hr : relax h goal false cur ((next, e) :: rest) s =
+            relax h goal false cur rest
+              { came := Path.set next (cur, e) s.came, cost := Path.set next (cc + h cur next) s.cost,
+                frontier := (cc + h cur next + h next goal, next) :: s.frontier } := by
+          simp only [relax, hcc, hn, hb, decide_true, Bool.false_and, Bool.false_eq_true, if_false, if_true]
+        rw [hr]
+        obtain ⟨h1, h2⟩ := ih _ _ (rinv_update adj h start goal hH cur cc P s hI next e (Or.inr ⟨old, hn, hb⟩))
+        refine ⟨h1.mono ?_, h2⟩
+        intro x hx
+        rcases hx with hx | hx
+        · exact Or.inl (Or.inl hx)
+        · rcases List.mem_cons.mp hx with hx | hx
+          · exact Or.inl (Or.inr hx)
+          · exact Or.inr hx
+      · have hr : relax h goal false cur ((next, e) :: rest) s = relax h goal false cur rest s := by
+          simp only [relax, hcc, hn, hb, decide_false, Bool.false_and, Bool.false_eq_true, if_false]
+        rw [hr]
+        have hI' : RInv adj h start goal (some (cur, cc)) (fun x => P x ∨ x = (next, e)) s :=
+          ⟨hI.nonneg, hI.goal_entries, hI.frontier_cost, hI.start_zero, hI.parent_cost, hI.settled, hI.cur_cost, by
+            intro n cc' hc x hx
+            rcases hx with hx | hx
+            · exact hI.done n cc' hc x hx
+            · simp only [Option.some.injEq, Prod.mk.injEq] at hc
+              obtain ⟨rfl, rfl⟩ := hc
+              subst hx
+              exact ⟨old, hn, not_lt.mp hb⟩⟩
+        obtain ⟨h1, h2⟩ := ih _ _ hI'
+        refine ⟨h1.mono ?_, h2⟩
+        intro x hx
+        rcases hx with hx | hx
+        · exact Or.inl (Or.inl hx)
+        · rcases List.mem_cons.mp hx with hx | hx
+          · exact Or.inl (Or.inr hx)
+          · exact Or.inr hx
+
+theorem popMin_split : ∀ (l : List (C × Nat)) (m : C × Nat) (rest : List (C × Nat)), popMin l = some (m, rest) →
+    (∀ x ∈ l, x = m ∨ x ∈ rest) ∧ (∀ x ∈ l, m.1 ≤ x.1) := by
+  intro l
+  induction l with
+  | nil => intro m rest hh; simp [popMin] at hh
+  | cons x xs ih =>
+    intro m rest hh
+    simp only [popMin] at hh
+    cases hp : popMin xs with
+    | none =>
+      rw [hp] at hh
+      simp only [Option.some.injEq, Prod.mk.injEq] at hh
+      obtain ⟨rfl, rfl⟩ := hh
+      have hx : xs = [] := by
+        cases xs with
+        | nil => rfl
+        | cons y ys =>
+          simp only [popMin] at hp
+          cases hq : popMin ys with
+          | none => rw [hq] at hp; cases hp
+          | some mr => rw [hq] at hp; simp only at hp; split at hp <;> cases hp
+      subst hx
+      exact ⟨by simp, by simp⟩
+    | some mr =>
+      obtain ⟨m', rest'⟩ := mr
+      rw [hp] at hh
+      obtain ⟨h1, h2⟩ := ih m' rest' hp
+      simp only at hh
+      by_cases ht : tupleLt m' x = true
+      · rw [if_pos ht] at hh
+        simp only [Option.some.injEq, Prod.mk.injEq] at hh
+        obtain ⟨rfl, rfl⟩ := hh
+        have hle : m'.1 ≤ x.1 := by
+          unfold tupleLt at ht
+          simp only [Bool.or_eq_true, Bool.and_eq_true, decide_eq_true_eq, Bool.not_eq_true', decide_eq_false_iff_not] at ht
+          rcases ht with ht | ⟨ht, _⟩
+          · exact le_of_lt ht
+          · exact not_lt.mp ht
+        refine ⟨?_, ?_⟩
+        · intro y hy
+          rcases List.mem_cons.mp hy with hy | hy
+          · subst hy; exact Or.inr (by simp)
+          · rcases h1 y hy with h | h
+            · exact Or.inl h
+            · exact Or.inr (List.mem_cons_of_mem _ h)
+        · intro y hy
+          rcases List.mem_cons.mp hy with hy | hy
+          · subst hy; exact hle
+          · exact h2 y hy
+      · rw [if_neg ht] at hh
+        simp only [Option.some.injEq, Prod.mk.injEq] at hh
+        obtain ⟨rfl, rfl⟩ := hh
+        have hle : x.1 ≤ m'.1 := by
+          unfold tupleLt at ht
+          simp only [Bool.or_eq_true, Bool.and_eq_true, decide_eq_true_eq, Bool.not_eq_true', decide_eq_false_iff_not, not_or] at ht
+          exact not_lt.mp ht.1
+        refine ⟨?_, ?_⟩
+        · intro y hy
+          rcases List.mem_cons.mp hy with hy | hy
+          · exact Or.inl hy
+          · exact Or.inr hy
+        · intro y hy
+          rcases List.mem_cons.mp hy with hy | hy
+          · subst hy; exact le_refl _
+          · exact le_trans hle (h2 y hy)
+
+/-- from any node with a recorded cost, along any walk to the goal: either some queue entry has a priority below
+    `cost + length of the walk`, or the goal's recorded cost is already below it -/
+theorem reach_bound (adj : Nat → List (Nat × Nat)) (h : Nat → Nat → C) (start goal : Nat) (hH : Heur h goal) (s : St C)
+    (hI : RInv adj h start goal none (fun _ => False) s) :
+    ∀ (rest : List Nat) (a : Nat) (c : C), lookup a s.cost = some c → IsWalk adj (a :: rest) →
+      (a :: rest).getLast? = some goal →
+      (∃ p n, (p, n) ∈ s.frontier ∧ p ≤ c + weight h (a :: rest)) ∨
+      (∃ cg, lookup goal s.cost = some cg ∧ cg ≤ c + weight h (a :: rest)) := by
+  intro rest
+  induction rest with
+  | nil =>
+    intro a c hc _ hl
+    simp only [List.getLast?_singleton, Option.some.injEq] at hl
+    subst hl
+    right
+    exact ⟨c, hc, by simp [weight]⟩
+  | cons b r ih =>
+    intro a c hc hw hl
+    have hl' : (b :: r).getLast? = some goal := by simpa [List.getLast?_cons_cons] using hl
+    obtain ⟨⟨e, hadj⟩, hw'⟩ := hw
+    rcases hI.settled a c (fun cc hcc => by cases hcc) hc with ⟨p, hp, hle⟩ | hcl
+    · left
+      exact ⟨p, a, hp, le_trans hle (add_le_add (le_refl _) (admissible adj h goal hH (b :: r) a hl))⟩
+    · obtain ⟨cb, hcb, hle⟩ := hcl b e hadj
+      have hstep : cb + weight h (b :: r) ≤ c + weight h (a :: b :: r) := by
+        calc cb + weight h (b :: r) ≤ (c + h a b) + weight h (b :: r) := add_le_add hle (le_refl _)
+          _ = c + weight h (a :: b :: r) := by rw [add_assoc]; rfl
+      rcases ih b cb hcb hw' hl' with ⟨p, n, hp, hle'⟩ | ⟨cg, hcg, hle'⟩
+      · left; exact ⟨p, n, hp, le_trans hle' hstep⟩
+      · right; exact ⟨cg, hcg, le_trans hle' hstep⟩
+
+/-- **C11 (optimal cost)**: when the search without early stopping returns, the cost it has recorded for the goal is at
+    most the length of *every* walk from the start to the goal — for every graph, every budget, every metric obeying `Heur` -/
+theorem forward_optimal (adj : Nat → List (Nat × Nat)) (h : Nat → Nat → C) (start goal : Nat) (hH : Heur h goal) :
+    ∀ (fuel : Nat) (s s' : St C), RInv adj h start goal none (fun _ => False) s → forward adj h goal false fuel s = .found s' →
+      (∀ (rest : List Nat), IsWalk adj (start :: rest) → (start :: rest).getLast? = some goal →
+        ∃ cg, lookup goal s'.cost = some cg ∧ cg ≤ weight h (start :: rest)) ∧
+      (∀ n c, lookup n s'.cost = some c → 0 ≤ c) ∧ lookup start s'.cost = some 0 ∧
+      (∀ n p e, lookup n s'.came = some (p, e) → ∃ cp cn, lookup p s'.cost = some cp ∧ lookup n s'.cost = some cn ∧ cp + h p n ≤ cn) := by
+  intro fuel
+  induction fuel with
+  | zero => intro s s' _ hf; simp [forward] at hf
+  | succ fuel ih =>
+    intro s s' hI hf
+    simp only [forward] at hf
+    cases hp : popMin s.frontier with
+    | none => rw [hp] at hf; cases hf
+    | some mr =>
+      obtain ⟨⟨pr, current⟩, rest⟩ := mr
+      rw [hp] at hf
+      obtain ⟨hm, hrest⟩ := popMin_mem _ _ _ hp
+      obtain ⟨hsplit, hmin⟩ := popMin_split _ _ _ hp
+      simp only at hf
+      by_cases hcg : (current == goal) = true
+      · simp only [hcg, if_true, Outcome.found.injEq] at hf
+        subst hf
+        have hcur : current = goal := by simpa using hcg
+        subst hcur
+        refine ⟨?_, hI.nonneg, hI.start_zero, hI.parent_cost⟩
+        intro walk hw hl
+        obtain ⟨cgoal, hcgoal, hcp⟩ := hI.goal_entries pr hm
+        rcases reach_bound adj h start current hH s hI walk start 0 hI.start_zero hw hl with ⟨p, n, hpn, hle⟩ | ⟨cg, hcg', hle⟩
+        · refine ⟨cgoal, hcgoal, ?_⟩
+          have := hmin (p, n) hpn
+          simp only at this
+          calc cgoal ≤ pr := hcp
+            _ ≤ p := this
+            _ ≤ 0 + weight h (start :: walk) := hle
+            _ = weight h (start :: walk) := zero_add _
+        · exact ⟨cg, hcg', by rw [zero_add] at hle; exact hle⟩
+      · simp only [hcg, Bool.false_eq_true, if_false] at hf
+        obtain ⟨cc, hcc⟩ := hI.frontier_cost _ hm
+        simp only at hcc
+        have hI1 : RInv adj h start goal (some (current, cc)) (fun _ => False) { s with frontier := rest } := by
+          refine ⟨hI.nonneg, fun p hp' => hI.goal_entries p (hrest _ hp'), fun x hx => hI.frontier_cost x (hrest x hx),
+            hI.start_zero, hI.parent_cost, ?_, ?_, ?_⟩
+          · intro n c hn hl
+            rcases hI.settled n c (fun cc' hc => by cases hc) hl with ⟨p, hp', hle⟩ | hcl
+            · left
+              refine ⟨p, ?_, hle⟩
+              rcases hsplit (p, n) hp' with heq | hin
+              · simp only [Prod.mk.injEq] at heq
+                exact absurd (by rw [heq.2]) (hn cc)
+              · exact hin
+            · right; exact hcl
+          · intro n cc' hc
+            simp only [Option.some.injEq, Prod.mk.injEq] at hc
+            obtain ⟨rfl, rfl⟩ := hc
+            exact hcc
+          · intro n cc' _ x hx; cases hx
+        obtain ⟨hI2, hr2⟩ := relax_rinv adj h start goal hH current cc (adj current) _ _ hI1
+        rw [hr2] at hf
+        simp only [Bool.false_eq_true, if_false] at hf
+        have hI3 : RInv adj h start goal none (fun _ => False)
+            (relax h goal false current (adj current) { s with frontier := rest }).1 := by
+          refine ⟨hI2.nonneg, hI2.goal_entries, hI2.frontier_cost, hI2.start_zero, hI2.parent_cost, ?_, ?_, ?_⟩
+          · intro n c _ hl
+            by_cases hn : n = current
+            · subst hn
+              have := hI2.cur_cost n cc rfl
+              rw [this] at hl; simp only [Option.some.injEq] at hl; subst hl
+              right
+              intro m e hme
+              exact hI2.done n cc rfl (m, e) (Or.inr hme)
+            · exact hI2.settled n c (fun cc' hc => by
+                simp only [Option.some.injEq, Prod.mk.injEq] at hc
+                exact hn hc.1.symm) hl
+          · intro n cc' hc; cases hc
+          · intro n cc' hc; cases hc
+        exact ih _ s' hI3 hf
+
+theorem chain_head (came : List (Nat × (Nat × Nat))) (start : Nat) :
+    ∀ fuel cur ns es, chain came start fuel cur = some (ns, es) → ns.head? = some cur := by
+  intro fuel
+  induction fuel with
+  | zero => intro cur ns es hc; simp [chain] at hc
+  | succ fuel ih =>
+    intro cur ns es hc
+    unfold chain at hc
+    split at hc
+    · simp only [Option.some.injEq, Prod.mk.injEq] at hc; rw [← hc.1]; rfl
+    · cases hl : lookup cur came with
+      | none => rw [hl] at hc; cases hc
+      | some pe =>
+        obtain ⟨p, e⟩ := pe
+        rw [hl] at hc
+        simp only at hc
+        cases hr : chain came start fuel p with
+        | none => rw [hr] at hc; cases hc
+        | some r =>
+          rw [hr] at hc
+          simp only [Option.map_some, Option.some.injEq, Prod.mk.injEq] at hc
+          rw [← hc.1]; rfl
+
+/-- the walk the backward pass reads off the parent table is no longer than the recorded cost of the node it starts from -/
+theorem chain_weight (h : Nat → Nat → C) (came : List (Nat × (Nat × Nat))) (cost : List (Nat × C)) (start : Nat)
+    (hnn : ∀ n c, lookup n cost = some c → 0 ≤ c)
+    (hpc : ∀ n p e, lookup n came = some (p, e) → ∃ cp cn, lookup p cost = some cp ∧ lookup n cost = some cn ∧ cp + h p n ≤ cn) :
+    ∀ fuel cur ns es c, chain came start fuel cur = some (ns, es) → lookup cur cost = some c → wRev h ns ≤ c := by
+  intro fuel
+  induction fuel with
+  | zero => intro cur ns es c hc; simp [chain] at hc
+  | succ fuel ih =>
+    intro cur ns es c hc hcost
+    unfold chain at hc
+    split at hc
+    · simp only [Option.some.injEq, Prod.mk.injEq] at hc
+      rw [← hc.1]
+      exact hnn cur c hcost
+    · cases hl : lookup cur came with
+      | none => rw [hl] at hc; cases hc
+      | some pe =>
+        obtain ⟨p, e⟩ := pe
+        rw [hl] at hc
+        simp only at hc
+        cases hr : chain came start fuel p with
+        | none => rw [hr] at hc; cases hc
+        | some r =>
+          obtain ⟨rn, re⟩ := r
+          rw [hr] at hc
+          simp only [Option.map_some, Option.some.injEq, Prod.mk.injEq] at hc
+          obtain ⟨cp, cn, hcp, hcn, hle⟩ := hpc cur p e hl
+          rw [hcost] at hcn; simp only [Option.some.injEq] at hcn; subst hcn
+          have hw := ih p rn re cp hr hcp
+          have hh := chain_head came start fuel p rn re hr
+          cases rn with
+          | nil => simp at hh
+          | cons q rest =>
+            simp only [List.head?_cons, Option.some.injEq] at hh
+            subst hh
+            rw [← hc.1]
+            calc wRev h (cur :: q :: rest) = h q cur + wRev h (q :: rest) := rfl
+              _ ≤ h q cur + cp := add_le_add (le_refl _) hw
+              _ = cp + h q cur := add_comm _ _
+              _ ≤ c := hle
+
+/-- **C11 (shortest path)**: without early stopping, whatever the graph, the budget and the metric (obeying `Heur`): if
+    the search returns a chain `ns` (from the goal back to the start), its length is at most the length of *every* walk
+    from the start to the goal — the returned path is a shortest one. -/
+theorem path_shortest (adj : Nat → List (Nat × Nat)) (h : Nat → Nat → C) (start goal : Nat) (hH : Heur h goal) (maxits : Nat)
+    (ns es : List Nat) (hp : path adj h 0 start goal false maxits = some (ns, es))
+    (rest : List Nat) (hw : IsWalk adj (start :: rest)) (hl : (start :: rest).getLast? = some goal) :
+    wRev h ns ≤ weight h (start :: rest) := by
+  unfold path at hp
+  cases hf : forward adj h goal false maxits (initSt 0 start) with
+  | exhausted => rw [hf] at hp; cases hp
+  | found s =>
+    rw [hf] at hp
+    simp only at hp
+    obtain ⟨hopt, hnn, _, hpc⟩ := forward_optimal adj h start goal hH maxits _ s (rinv_init adj h start goal hH) hf
+    obtain ⟨cg, hcg, hle⟩ := hopt rest hw hl
+    rw [backward_eq_chain] at hp
+    cases hc : chain s.came start (s.came.length + 2) goal with
+    | none => rw [hc] at hp; cases hp
+    | some r =>
+      obtain ⟨rn, re⟩ := r
+      rw [hc] at hp
+      simp only [Option.map_some, List.reverse_nil, List.nil_append, Option.some.injEq, Prod.mk.injEq] at hp
+      obtain ⟨rfl, rfl⟩ := hp
+      exact le_trans (chain_weight h s.came s.cost start hnn hpc _ goal rn re cg hc hcg) hle
+
+/-! non-vacuity: unit costs on the 3-cycle are not a metric towards the goal (`h goal goal ≠ 0`), the 0/1 metric is -/
+def exH : Nat → Nat → Nat := fun a b => if a = b then 0 else 1
+example : Heur exH 2 := ⟨fun _ _ => Nat.zero_le _, by simp [exH], fun a b => by unfold exH; split <;> split <;> split <;> omega⟩
+example : path exAdj exH 0 0 2 false 10 = some ([2, 0], [2]) := by decide
+example : IsWalk exAdj [0, 1, 2] ∧ weight exH [0, 1, 2] = 2 ∧ wRev exH [2, 0] = 1 := by
+  refine ⟨⟨⟨0, by decide⟩, ⟨1, by decide⟩, trivial⟩, by decide, by decide⟩
+
+end Optimal
+end C11
+
+namespace C11
+open Path
+
+/-! ### both offered metrics satisfy `Heur` in exact (real) arithmetic -/
+
+/-- `straight_line_length`: the Euclidean distance of the centres -/
+noncomputable def hEuclid (z : Nat → ℂ) (a b : Nat) : ℝ := ‖z a - z b‖
+
+theorem heur_euclid (z : Nat → ℂ) (goal : Nat) : Heur (hEuclid z) goal where
+  nonneg := fun _ _ => norm_nonneg _
+  goal_zero := by simp [hEuclid]
+  tri := fun a b => by
+    unfold hEuclid
+    calc ‖z a - z goal‖ = ‖(z a - z b) + (z b - z goal)‖ := by congr 1; ring
+      _ ≤ ‖z a - z b‖ + ‖z b - z goal‖ := norm_add_le _ _
+
+/-- one coordinate of `periodic_straight_line_length`: `δ = |x|`, `1 − δ` where `δ > 1/2` -/
+noncomputable def pw (x : ℝ) : ℝ := if |x| > 1 / 2 then 1 - |x| else |x|
+
+theorem pw_nonneg (x : ℝ) (hx : |x| ≤ 1) : 0 ≤ pw x := by
+  unfold pw; split
+  · linarith
+  · exact abs_nonneg x
+
+theorem pw_zero : pw 0 = 0 := by unfold pw; simp
+
+/-- `pw x` is at most the distance from `x` to any integer … -/
+theorem pw_le_int (x : ℝ) (hx : |x| ≤ 1) (k : ℤ) : pw x ≤ |x - k| := by
+  have h1 : pw x ≤ |x| := by unfold pw; split <;> [linarith; exact le_refl _]
+  have h2 : pw x ≤ 1 - |x| := by unfold pw; split <;> [exact le_refl _; (rename_i h; have h := not_lt.mp h; linarith)]
+  rcases lt_trichotomy k 0 with hk | hk | hk
+  · have : (k : ℝ) ≤ -1 := by exact_mod_cast Int.le_sub_one_of_lt hk
+    have hx' := abs_le.mp hx
+    calc pw x ≤ 1 - |x| := h2
+      _ ≤ x - k := by have := neg_abs_le x; linarith
+      _ ≤ |x - k| := le_abs_self _
+  · subst hk; simpa using h1
+  · have : (1 : ℝ) ≤ k := by exact_mod_cast hk
+    calc pw x ≤ 1 - |x| := h2
+      _ ≤ -(x - k) := by have := le_abs_self x; linarith
+      _ ≤ |x - k| := neg_le_abs _
+
+/-- … and equals the distance to one of them -/
+theorem pw_eq_int (x : ℝ) (hx : |x| ≤ 1) : ∃ k : ℤ, pw x = |x - k| := by
+  unfold pw
+  split
+  · rcases le_total 0 x with h0 | h0
+    · refine ⟨1, ?_⟩
+      rw [abs_of_nonneg h0] at hx ⊢
+      rw [Int.cast_one, abs_of_nonpos (by linarith)]; ring
+    · refine ⟨-1, ?_⟩
+      rw [abs_of_nonpos h0] at hx ⊢
+      have : (((-1 : ℤ) : ℝ)) = -1 := by norm_num
+      rw [this, abs_of_nonneg (by linarith)]; ring
+  · exact ⟨0, by simp⟩
+
+/-- the wrapped coordinate difference is subadditive (all three differences between points of the unit cell) -/
+theorem pw_add_le (x y : ℝ) (hx : |x| ≤ 1) (hy : |y| ≤ 1) (hxy : |x + y| ≤ 1) : pw (x + y) ≤ pw x + pw y := by
+  obtain ⟨k, hk⟩ := pw_eq_int x hx
+  obtain ⟨m, hm⟩ := pw_eq_int y hy
+  have := pw_le_int (x + y) hxy (k + m)
+  calc pw (x + y) ≤ |x + y - ((k + m : ℤ) : ℝ)| := this
+    _ = |(x - k) + (y - m)| := by congr 1; push_cast; ring
+    _ ≤ |x - k| + |y - m| := abs_add_le _ _
+    _ = pw x + pw y := by rw [hk, hm]
+
+/-- `periodic_straight_line_length`: the minimum-image distance on the unit torus -/
+noncomputable def hPeriodic (p : Nat → ℝ × ℝ) (a b : Nat) : ℝ :=
+  Real.sqrt (pw ((p a).1 - (p b).1) ^ 2 + pw ((p a).2 - (p b).2) ^ 2)
+
+theorem abs_sub_le_one {u v : ℝ} (hu : 0 ≤ u ∧ u < 1) (hv : 0 ≤ v ∧ v < 1) : |u - v| ≤ 1 := by
+  rw [abs_le]; constructor <;> linarith [hu.1, hu.2, hv.1, hv.2]
+
+theorem heur_periodic (p : Nat → ℝ × ℝ) (goal : Nat)
+    (hcell : ∀ n, (0 ≤ (p n).1 ∧ (p n).1 < 1) ∧ (0 ≤ (p n).2 ∧ (p n).2 < 1)) : Heur (hPeriodic p) goal where
+  nonneg := fun _ _ => Real.sqrt_nonneg _
+  goal_zero := by simp [hPeriodic, pw_zero]
+  tri := fun a b => by
+    unfold hPeriodic
+    set x1 := (p a).1 - (p b).1
+    set x2 := (p b).1 - (p goal).1
+    set y1 := (p a).2 - (p b).2
+    set y2 := (p b).2 - (p goal).2
+    have ex : (p a).1 - (p goal).1 = x1 + x2 := by simp only [x1, x2]; ring
+    have ey : (p a).2 - (p goal).2 = y1 + y2 := by simp only [y1, y2]; ring
+    rw [ex, ey]
+    have hx1 : |x1| ≤ 1 := abs_sub_le_one (hcell a).1 (hcell b).1
+    have hx2 : |x2| ≤ 1 := abs_sub_le_one (hcell b).1 (hcell goal).1
+    have hy1 : |y1| ≤ 1 := abs_sub_le_one (hcell a).2 (hcell b).2
+    have hy2 : |y2| ≤ 1 := abs_sub_le_one (hcell b).2 (hcell goal).2
+    have hx12 : |x1 + x2| ≤ 1 := by rw [← ex]; exact abs_sub_le_one (hcell a).1 (hcell goal).1
+    have hy12 : |y1 + y2| ≤ 1 := by rw [← ey]; exact abs_sub_le_one (hcell a).2 (hcell goal).2
+    have sx := pw_add_le x1 x2 hx1 hx2 hx12
+    have sy := pw_add_le y1 y2 hy1 hy2 hy12
+    have nx := pw_nonneg (x1 + x2) hx12
+    have ny := pw_nonneg (y1 + y2) hy12
+    -- monotonicity, then Minkowski in the plane (the norm of complex numbers)
+    have mono : Real.sqrt (pw (x1 + x2) ^ 2 + pw (y1 + y2) ^ 2) ≤ Real.sqrt ((pw x1 + pw x2) ^ 2 + (pw y1 + pw y2) ^ 2) := by
+      apply Real.sqrt_le_sqrt
+      have := pow_le_pow_left₀ nx sx 2
+      have := pow_le_pow_left₀ ny sy 2
+      linarith
+    have mink : Real.sqrt ((pw x1 + pw x2) ^ 2 + (pw y1 + pw y2) ^ 2) ≤
+        Real.sqrt (pw x1 ^ 2 + pw y1 ^ 2) + Real.sqrt (pw x2 ^ 2 + pw y2 ^ 2) := by
+      rw [← Complex.norm_add_mul_I, ← Complex.norm_add_mul_I, ← Complex.norm_add_mul_I]
+      have : ((pw x1 + pw x2 : ℝ) : ℂ) + ((pw y1 + pw y2 : ℝ) : ℂ) * Complex.I
+          = ((pw x1 : ℂ) + (pw y1 : ℂ) * Complex.I) + ((pw x2 : ℂ) + (pw y2 : ℂ) * Complex.I) := by push_cast; ring
+      rw [this]
+      exact norm_add_le _ _
+    exact le_trans mono mink
+
+/-- **C11 (shortest path, both metrics)**: with either of the two offered metrics evaluated in exact real arithmetic, the chain
+    returned without early stopping is a shortest path — no hypothesis about the metric is left. -/
+theorem path_shortest_euclid (adj : Nat → List (Nat × Nat)) (z : Nat → ℂ) (start goal maxits : Nat) (ns es : List Nat)
+    (hp : path adj (hEuclid z) 0 start goal false maxits = some (ns, es))
+    (rest : List Nat) (hw : IsWalk adj (start :: rest)) (hl : (start :: rest).getLast? = some goal) :
+    wRev (hEuclid z) ns ≤ weight (hEuclid z) (start :: rest) :=
+  path_shortest adj (hEuclid z) start goal (heur_euclid z goal) maxits ns es hp rest hw hl
+
+theorem path_shortest_periodic (adj : Nat → List (Nat × Nat)) (p : Nat → ℝ × ℝ)
+    (hcell : ∀ n, (0 ≤ (p n).1 ∧ (p n).1 < 1) ∧ (0 ≤ (p n).2 ∧ (p n).2 < 1)) (start goal maxits : Nat) (ns es : List Nat)
+    (hp : path adj (hPeriodic p) 0 start goal false maxits = some (ns, es))
+    (rest : List Nat) (hw : IsWalk adj (start :: rest)) (hl : (start :: rest).getLast? = some goal) :
+    wRev (hPeriodic p) ns ≤ weight (hPeriodic p) (start :: rest) :=
+  path_shortest adj (hPeriodic p) start goal (heur_periodic p goal hcell) maxits ns es hp rest hw hl
 
 end C11
